@@ -403,6 +403,60 @@ def decide_by_models(pc, atoms):
     return seen.pop() if len(seen) == 1 else None
 
 
+def decide_by_signs(pc, s, err, smin, smax):
+    """the documented condition on a path whose tests are spelled through signs: enumerate the sign models of (sum, err) and the
+    position of sum relative to its limits (summin <= 0 <= summax); evaluate every condition that speaks about these four symbols only;
+    conditions with other symbols (the output clamp) can be met independently of the model by the free limits they mention.
+    -> True / False when all models of the path agree, 'mixed' when the path contains models of both kinds, None when a condition over
+    the four symbols cannot be evaluated"""
+    import itertools
+    core = {s, err, smin, smax}
+    seen = set()
+    # concrete representatives: sum in {-2,-1,0,1,2}, limits summin in {-1,0}, summax in {0,1}, err in {-1,0,1}
+    for sv, ev_, lo_, hi_ in itertools.product((-2, -1, 0, 1, 2), (-1, 0, 1), (-1, 0), (0, 1)):
+        env = {s: sv, err: ev_, smin: lo_, smax: hi_}
+
+        def ev(c):
+            if isinstance(c, alg.BoolOp):
+                vs = [ev(a) for a in c.args]
+                if c.op == 'and':
+                    return False if False in vs else (None if None in vs else True)
+                return True if True in vs else (None if None in vs else False)
+            if not isinstance(c, alg.Cond):
+                return None
+            fs = sp.sympify(c.a).free_symbols | sp.sympify(c.b).free_symbols
+            if not fs <= core:
+                return 'free' if fs - core else None
+            d = sp.sympify(c.a).subs(env) - sp.sympify(c.b).subs(env)
+            rel = c.rel()
+            return {'<': d < 0, '<=': d <= 0, '>': d > 0, '>=': d >= 0, '==': d == 0, '!=': d != 0}[rel]
+
+        def ev3(c):
+            v = ev(c)
+            return True if v == 'free' else v
+        vals = []
+        for c in pc:
+            if isinstance(c, alg.BoolOp):
+                # a disjunction / conjunction mixing core and free conditions: free parts are satisfiable independently
+                def evb(x):
+                    if isinstance(x, alg.BoolOp):
+                        vs = [evb(a) for a in x.args]
+                        if x.op == 'and':
+                            return False if False in vs else (None if None in vs else True)
+                        return True if True in vs else (None if None in vs else False)
+                    return ev3(x)
+                vals.append(evb(c))
+            else:
+                vals.append(ev3(c))
+        if None in vals:
+            return None
+        if all(bool(v) for v in vals):
+            seen.add(bool((lo_ < sv and sv < hi_) or sv * ev_ < 0))
+    if len(seen) == 2:
+        return 'mixed'
+    return seen.pop() if seen else 'infeasible'
+
+
 def flat_all(pc):
     for c in pc:
         if isinstance(c, alg.BoolOp):
@@ -432,6 +486,7 @@ def integrator(ctx, results):
     ki, err = dom.sym('ki', real=True), dom.sym('err_in', real=True)
     atoms = {'lo': (smin, s), 'hi': (s, smax), 'dir': (s * err, sp.Integer(0))}
     probs = []
+    unks = []
     n_int = n_hold = 0
     for lf in leaves:
         sf = fld(dom, lf, 'sum')
@@ -460,7 +515,15 @@ def integrator(ctx, results):
             # three atoms that are consistent with it
             want = decide_by_models(lf.pc, atoms)
         if want is None:
-            probs.append('path condition %s does not determine the integration condition' % (str(lf.pc)[:160]))
+            want = decide_by_signs(lf.pc, s, err, smin, smax)
+        if want == 'infeasible':
+            continue      # no order of sum, its limits and the sign of err satisfies the path: it is never taken
+        if want == 'mixed':
+            probs.append('the path %s is taken both where the documented condition (summin < sum < summax) or sum*err < 0 holds and where it does not '
+                         '(e.g. sum = 0 on a limit with err < 0)' % (str(lf.pc)[:200]))
+            continue
+        if want is None:
+            unks.append('path condition %s does not determine the integration condition' % (str(lf.pc)[:160]))
             continue
         if changed != want:
             probs.append('integrator %s on a path where the documented condition is %s (path %s)' % (
@@ -471,9 +534,11 @@ def integrator(ctx, results):
                 probs.append('integrator increment is %s, expected ki*err' % sp.expand(sf - s))
         else:
             n_hold += 1
-    if not n_int or not n_hold:
+    if (not n_int or not n_hold) and not unks:
         probs.append('integrating paths: %d, holding paths: %d' % (n_int, n_hold))
-    if probs:
+    if not probs and unks:
+        rep.unk('D2', 'a_pid_pos_', '; '.join(sorted(set(unks))[:2]), loc=loc)
+    elif probs:
         rep.bad('D2', 'a_pid_pos_', '; '.join(sorted(set(probs))[:3]), loc=loc, key='a_pid_pos_: integrator guard')
     else:
         rep.ok('D2', 'a_pid_pos_', 'sum += ki*err exactly when (summin < sum < summax) or sum*err < 0 (%d integrating, %d holding paths): '
